@@ -70,4 +70,16 @@ theorem coil_sites_wf : coil_sites.all CoilSite.wf = true := by decide
 theorem coil_sites_methods_present :
     coil_sites = [] ∨ oracleMethods.all (fun f => coil_sites.any (fun s => s.func == f)) = true := by decide
 
+/-- the helpers of `direct/data/transforms.py` reachable from the C02 operators (call-graph closure `helper_closure`,
+following `from direct.… import …`) keep **no state that survives a call**: no caching decorator, no `global` /
+`nonlocal`, no read or write of a module-level non-constant binding, no function attribute, no mutable default
+argument — so every call is a function of its arguments only (`Props/C02.history_independent`), which is what the
+per-line driver models -/
+theorem helper_state_uses_none : helper_state_uses = [] := by decide
+
+/-- the closure was computed from the operators the property names -/
+theorem helper_closure_covers :
+    ["complex_multiplication", "complex_division", "safe_divide", "conjugate", "modulus", "complex_dot_product", "complex_mm",
+     "complex_bmm", "root_sum_of_squares", "reduce_operator", "expand_operator"].all (helper_closure.contains ·) = true := by decide
+
 end DirectVerif.Bridge.C02
